@@ -44,6 +44,14 @@ static void cstl_vector_set_capacity(
      */
     assert(sz >= v->count);
 
+    if (v->elem.size > 0 && sz >= SIZE_MAX / v->elem.size) {
+        /*
+         * the size in bytes of sz + 1 elements is not representable.
+         * treat it as a failed allocation: the vector is unchanged
+         */
+        return;
+    }
+
     /*
      * the vector always (quietly) stores space for one extra
      * element at the end to use as scratch space for exchanging
